@@ -1693,6 +1693,73 @@ class C15(Oracle):
                 env.reset()
             if out:
                 break
+        if not out:
+            out.extend(self._gym_layer(c))
+        return out
+
+    @staticmethod
+    def _gym_layer(c):
+        """the spaces advertised by the gym adapter, across switches of both representations (the same
+        name is used for states and observations on purpose): whatever is returned lies in the space
+        advertised at that moment, which is the space of the representation currently selected"""
+        import numpy as np
+        from gym_gridverse.gym import GymEnvironment, outer_space_to_gym_space
+        from gym_gridverse.outer_env import OuterEnv
+        from gym_gridverse.representations.observation_representations import make_observation_representation
+        from gym_gridverse.representations.state_representations import make_state_representation
+
+        out = []
+        env = env_of_case(c)
+        genv = GymEnvironment(OuterEnv(env, observation_representation=make_observation_representation('default', env.observation_space)))
+        rr = random.Random(c['seed'])
+        can_state = env.state_space.can_be_represented
+        env.set_seed(c['seed'])
+        names = ['default', 'no-overlap', 'compact']
+        cur = {'o': 'default', 's': None}
+        genv.reset()
+
+        def same_space(a, b):
+            return list(a.spaces.keys()) == list(b.spaces.keys()) and all(
+                a[k].shape == b[k].shape and a[k].dtype == b[k].dtype and np.array_equal(a[k].low, b[k].low) and np.array_equal(a[k].high, b[k].high) for k in a.spaces
+            )
+
+        def probe(where):
+            o = genv.observation
+            want = outer_space_to_gym_space(make_observation_representation(cur['o'], env.observation_space).space)
+            if not genv.observation_space.contains(o):
+                out.append(V('gym/observation-outside-advertised-space', f'{c.get("file", "random composition")} {where} ({cur})'))
+            elif not same_space(genv.observation_space, want):
+                out.append(V('gym/advertised-observation-space-is-not-the-selected-representation', f'{c.get("file", "random composition")} {where} ({cur})'))
+            if cur['s'] is not None:
+                st = genv.state
+                want = outer_space_to_gym_space(make_state_representation(cur['s'], env.state_space).space)
+                if not genv.state_space.contains(st):
+                    out.append(V('gym/state-outside-advertised-space', f'{c.get("file", "random composition")} {where} ({cur})'))
+                elif not same_space(genv.state_space, want):
+                    out.append(V('gym/advertised-state-space-is-not-the-selected-representation', f'{c.get("file", "random composition")} {where} ({cur})'))
+
+        acts = list(c['actions'][:8])
+        for k in range(rr.randint(2, 5)):
+            n = rr.choice(names)
+            order = ['o', 's'] if rr.random() < 0.5 else ['s', 'o']
+            for kind in order:
+                if kind == 'o':
+                    genv.set_observation_representation(n)
+                    cur['o'] = n
+                elif can_state:
+                    m = n if rr.random() < 0.7 else rr.choice(names)
+                    genv.set_state_representation(m)
+                    cur['s'] = m
+                probe(f'after switch {k}/{kind}')
+                if out:
+                    return out
+            if acts:
+                _, _, d, _ = genv.step(acts.pop() % genv.action_space.n)
+                probe(f'after a step following switch {k}')
+                if d:
+                    genv.reset()
+            if out:
+                return out
         return out
 
 
